@@ -1,7 +1,7 @@
 (* C08 - Writers repeat each structure the configured number of times. Statements only. *)
 From Coq Require Import List Bool ZArith QArith.
 Import ListNotations.
-From Femto Require Import Base.Num Ctl.Tok Ctl.Machine Pgm.Ops Writers.Writers Writers.WritersProofs.
+From Femto Require Import Base.Num Ctl.Tok Ctl.Machine Ctl.Safety Pgm.Ops Pgm.SafeProofs Pgm.SessionSafe Writers.Writers Writers.WritersProofs.
 Open Scope Z_scope.
 
 (* the waveguide file: one REPEAT block per group, with the scan count of its first member, holding one
@@ -45,6 +45,25 @@ Print Assumptions C08_nasu_outward.
 Theorem C08_nasu_keeps_feed_shutter : forall k sh p, pf (shift_pt k sh p) = pf p /\ ps (shift_pt k sh p) = ps p.
 Proof. exact shift_pt_keeps. Qed.
 Print Assumptions C08_nasu_keeps_feed_shutter.
+
+(* the three writer programs are sessions of public operations whenever the structures are closed paths (first and last
+   point shutter-closed, flags 0/1 - what the builders produce): C03's theorem applies to every file a writer emits -
+   it parses, runs without controller error, and ends with the shutter closed and the rotation off *)
+Theorem C08_writer_sessions_public :
+  (forall groups, Forall (Forall (fun w => closed_path (w_pts w) = true)) groups -> pubs (wg_ops groups) = true) /\
+  (forall ms, Forall (fun w => closed_path (w_pts w) = true) ms -> pubs (mk_ops ms) = true) /\
+  (forall ns, Forall (fun n => closed_path (n_pts n) = true) ns -> pubs (nasu_ops ns) = true).
+Proof. exact (conj wg_ops_pub (conj mk_ops_pub nasu_ops_pub)). Qed.
+Print Assumptions C08_writer_sessions_public.
+
+Theorem C08_wg_file_safe : forall c groups file d o,
+  cfg_ok c -> Forall (Forall (fun w => closed_path (w_pts w) = true)) groups ->
+  session c (wg_ops groups) = Written file d o ->
+  exists tree, parse file = Some tree /\
+    forall call, call_wb call -> forall m, mrot m = false ->
+      only_notloaded (snd (run_list call m tree)) /\ msh (fst (run_list call m tree)) = false /\ mrot (fst (run_list call m tree)) = false.
+Proof. intros c groups file d o Hc Hg H. exact (session_safe c (wg_ops groups) file d o Hc (wg_ops_pub groups Hg) H). Qed.
+Print Assumptions C08_wg_file_safe.
 
 Example C08_example : nasu_order 5 = [0; 2; -2; 4; -4] /\ nasu_order 4 = [1; -1; 3; -3].
 Proof. split; reflexivity. Qed.
